@@ -51,6 +51,7 @@ var c20Exprs = []struct {
 	{"//*", "node-set"}, {"/*", "node-set"}, {"//a", "node-set"}, {"//@*", "node-set"}, {"//text()", "node-set"}, {"//comment()", "node-set"}, {"//processing-instruction()", "node-set"},
 	{"/", "node-set"}, {"//p:*", "node-set"}, {"//*[@id]", "node-set"}, {"//no-such", "node-set"}, {"//*[. = $v]", "node-set"}, {"(//*)[last()]", "node-set"}, {"//*/namespace::*", "node-set"},
 	{"string(//a)", "string"}, {"name(/*)", "string"}, {"concat($v, '-', $p:w)", "string"}, {"count(//*)", "number"}, {"sum(//a)", "number"}, {"boolean(//a)", "boolean"}, {"//a = $v", "boolean"},
+	{"concat('[', $v, ']')", "string"}, {"string-length($v)", "number"}, {"//*[contains(., $v)]", "node-set"}, {"//@*[. = $v]", "node-set"}, {"string(//ent)", "string"}, {"//ent/@k", "node-set"},
 	{"//#obj", "node-set"}, {"//#arr/text()", "node-set"}, {"//body//*", "node-set"},
 }
 
@@ -117,6 +118,11 @@ func c20Case(r *evid.Run, tier string, idx int, g *rng.R) {
 		dir := rng.Pick(g, dirs[:4])
 		rel := filepath.Join(dir, fmt.Sprintf("f%02d%s", i, ext))
 		f := c20GenFile(g, rel, kind)
+		if kind == "xml" && g.P(20) {
+			// a file that references the entity given with -e, in text and in an attribute value
+			f.doc = nil
+			f.data = []byte(fmt.Sprintf(`<r><ent k="&ent;">one&ent;two</ent><a>%s</a><b id="x&ent;">&ent;</b></r>`, rng.Pick(g, []string{"1", "a", "x y"})))
+		}
 		switch g.Intn(14) {
 		case 0:
 			f.bad = "malformed"
@@ -155,8 +161,14 @@ func c20Case(r *evid.Run, tier string, idx int, g *rng.R) {
 	if g.P(15) {
 		forceT = rng.Pick(g, []string{"xml", "html", "json"})
 	}
-	vval := rng.Pick(g, []string{"1", "a", "x y", "é"})
-	args := []string{"-x", ex.src, "-s", "p=urn:a", "-s", "q=urn:b", "-v", "v=" + vval, "-v", "p:w=W", "-e", "ent=ENT"}
+	// binding values are taken literally: leading/trailing/only white space, '=' inside the value
+	vval := rng.Pick(g, []string{"1", "a", "x y", "é", "a ", " a", " ", "1 ", "x\t", "y\n", "z\u00a0", "k=v", ", ", ""})
+	entVal := rng.Pick(g, []string{"ENT", "ENT", "E ", " ", "two words ", "\u00a0", " lead", "a=b"})
+	qURI := "urn:b"
+	if g.P(10) {
+		qURI = rng.Pick(g, []string{"urn:b ", " urn:b", "urn:b\n"})
+	}
+	args := []string{"-x", ex.src, "-s", "p=urn:a", "-s", "q=" + qURI, "-v", "v=" + vval, "-v", "p:w=W", "-e", "ent=" + entVal}
 	if flagA {
 		args = append(args, "-a")
 	}
@@ -219,7 +231,7 @@ func c20Case(r *evid.Run, tier string, idx int, g *rng.R) {
 	}
 	settings := func(c *xsel.ContextSettings) {
 		c.NamespaceDecls["p"] = "urn:a"
-		c.NamespaceDecls["q"] = "urn:b"
+		c.NamespaceDecls["q"] = qURI
 		c.Variables[xsel.XmlName{Local: "v"}] = xsel.String(vval)
 		c.Variables[xsel.XmlName{Space: "urn:a", Local: "w"}] = xsel.String("W")
 	}
@@ -251,7 +263,7 @@ func c20Case(r *evid.Run, tier string, idx int, g *rng.R) {
 		case "xml":
 			cur, err = xsel.ReadXml(bytes.NewReader(data), func(d *xml.Decoder) {
 				d.Strict = !flagU
-				d.Entity = map[string]string{"ent": "ENT"}
+				d.Entity = map[string]string{"ent": entVal}
 			})
 		case "html":
 			cur, err = xsel.ReadHtml(bytes.NewReader(data))
